@@ -552,7 +552,7 @@ func runConcIsolated(prop string, tr *Trace) *Result {
 	cmd.Stdin = bytes.NewReader(tj)
 	var so, se bytes.Buffer
 	cmd.Stdout, cmd.Stderr = &so, &se
-	if err := cmd.Start(); err != nil {
+	if err := startWithRetry(cmd); err != nil {
 		r := newResult()
 		r.Fatal = "cannot start child: " + err.Error()
 		return r
